@@ -553,6 +553,10 @@ def small_count(b, op, at, depth=0):
     l = pl["l"]
     proj = [e for e in pl["p"] if e != "*"]
     ds = [d for d in b.defs().get(l, ()) if d["kind"] in ("assign", "call") and b.def_reaches(d, at)]
+    if len(ds) > 1 and not proj and all(d["kind"] == "assign" and not d["lhs"]["p"] and d["rv"]["k"] == "use" for d in ds):
+        # `let digits = if .. { 3 } else { 0 }`: every alternative is in range
+        whys = [small_count(b, d["rv"]["op"], d["bb"], depth + 1) for d in ds]
+        return "every alternative in range (%s)" % "; ".join(whys) if all(whys) else None
     if len(ds) == 1 and ds[0]["kind"] == "call" and not ds[0]["call"].dest["p"] and not proj:
         c = ds[0]["call"]
         if c.matches(r"std::option::Option::<T>::(unwrap_or|unwrap_or_default|unwrap)") and c.args:
